@@ -100,7 +100,7 @@ def kl(S, N, pbs, qbs, rep):
     pm = S.randn(*pbs, N); Pm = S.sym_tensor(pm, "pm")
     qm = S.randn(*qbs, N); Qm = S.sym_tensor(qm, "qm")
     pc, PC, PG = _cov(S, rep, N, pbs, "gp")
-    qc, QC, QG = _cov(S, "dense" if rep in ("root", "wide_root") else rep, N, qbs, "gq")
+    qc, QC, QG = _cov(S, "dense" if rep in ("root", "wide_root", "full_root") else rep, N, qbs, "gq")
     with S.mode():
         p = MultivariateNormal(pm, pc)
         q = MultivariateNormal(qm, qc)
@@ -390,6 +390,8 @@ def scenarios(tier, seed):
         add("moments_ops", N=3, bs=[], rep="full_root")
         add("moments_ops", N=2, bs=[2], rep="full_root")
         add("rsample", N=2, bs=[], rep="full_root", nsamp=2)
+        add("kl", N=2, pbs=[2], qbs=[], rep="full_root")
+        add("kl", N=3, pbs=[], qbs=[], rep="full_root")
         for rep in ("dense", "lazy", "root", "added_diag"):
             add("kl", N=3, pbs=[], qbs=[], rep=rep)
             add("kl", N=2, pbs=[2], qbs=[1], rep=rep)
